@@ -221,7 +221,7 @@ for _w in ("write_index", "write_assembly"):
 
 # --- C15: acceptance test of the cache ----------------------------------------------------------------
 
-from pyvc.values import BOOL, REAL, TRef  # noqa: E402
+from pyvc.values import BOOL, NONE, REAL, STR, TRef  # noqa: E402
 
 PATH = TRef("Path")
 
@@ -299,5 +299,63 @@ def _run_indexing_obligations(mi, fn):
     return [("post", "index-and-assembly-of-the-current-file-then-both-caches-written", [], z3.BoolVal(True))]
 
 
-contract(f"{IDX}.FastaIndex.auto_load", properties=("C15", "C03", "C17"), custom=staticmethod(_auto_load_obligations))(type("_", (), {}))
-contract(f"{IDX}.FastaIndex.run_indexing", properties=("C15", "C13", "C03", "C04"), custom=staticmethod(_run_indexing_obligations))(type("_", (), {}))
+# Loading the cache is a two-step protocol: the assembly read from the .agp file is completed from the index (an AGP
+# file has no line for a record without residues: a8b983e), so the index has to be there first.  Ghost typestate on the
+# FastaIndex object carries that from load_index to load_assembly; auto_load is verified against it path by path.
+FIX = TRef("FastaIndex")
+_LOADED = ["g_index_loaded", "g_assembly_loaded"]
+
+
+@contract(f"{IDX}.FastaIndex.load_index", status="TRUSTED", properties=("C15",))
+class _:
+    # reads <fasta>.fai into .index (content: bounded tier); refuses a second load
+    params = {"self": FIX}
+    result = NONE
+    raises = {"IndexUsageError": lambda o: o.self.g_index_loaded, "FileNotFoundError": lambda o: z3.Not(o.self.fai_file.g_exists),
+              "ValueError": lambda o: True}
+    modifies = staticmethod(lambda o: [("field", "FastaIndex", "g_index_loaded", o.self), ("field", "FastaIndex", "index", o.self),
+                                       ("fresh-objs", "FastaInfo", ["length", "file_offset", "residues_per_line", "max_line_length"]), ("dict-maps", STR, TRef("FastaInfo")), ("alloc",)])
+    ensures = staticmethod(lambda o, n, res: n.self.g_index_loaded)
+
+
+@contract(f"{IDX}.FastaIndex.load_assembly", status="TRUSTED", properties=("C15",))
+class _:
+    # reads <fasta>.agp into .assembly and restores the scaffolds of records without residues from .index - which
+    # therefore must have been loaded (precondition; the function itself would silently skip the step)
+    params = {"self": FIX}
+    result = NONE
+    requires = staticmethod(lambda o: [("index-loaded-first", o.self.g_index_loaded)])
+    raises = {"IndexUsageError": lambda o: o.self.g_assembly_loaded, "FileNotFoundError": lambda o: z3.Not(o.self.agp_file.g_exists),
+              **{e: (lambda o: True) for e in ("ValueError", "IndexError", "KeyError", "AttributeError", "TypeError")}}
+    modifies = staticmethod(lambda o: [("field", "FastaIndex", "g_assembly_loaded", o.self), ("alloc",), ("ralloc",)])
+    ensures = staticmethod(lambda o, n, res: n.self.g_assembly_loaded)
+
+
+@contract(f"{IDX}.FastaIndex.run_indexing", properties=("C15", "C13", "C03", "C04"))
+class _:
+    custom = staticmethod(_run_indexing_obligations)
+    # at call sites (assumed of the straight-line body whose shape is checked above): both are filled, both caches written
+    params = {"self": FIX}
+    result = NONE
+    raises = {e: (lambda o: True) for e in ("ValueError", "FileNotFoundError", "OSError")}
+    modifies = staticmethod(lambda o: [("field", "FastaIndex", f, o.self) for f in _LOADED + ["index"]] + [
+        ("field", "Path", "g_exists", o.self.fai_file), ("field", "Path", "g_mtime", o.self.fai_file),
+        ("field", "Path", "g_exists", o.self.agp_file), ("field", "Path", "g_mtime", o.self.agp_file),
+        ("fresh-objs", "FastaInfo", ["length", "file_offset", "residues_per_line", "max_line_length"]), ("dict-maps", STR, TRef("FastaInfo")), ("alloc",), ("ralloc",)])
+    ensures = staticmethod(lambda o, n, res: z3.And(n.self.g_index_loaded, n.self.g_assembly_loaded))
+
+
+@contract(f"{IDX}.FastaIndex.auto_load", properties=("C15", "C03", "C17"))
+class _:
+    # "Cache files that are missing or not strictly newer than the FASTA are rebuilt, both together": the accepted cache
+    # is loaded - index first - and otherwise the file is indexed; either way index and assembly are both filled
+    params = {"self": FIX}
+    result = NONE
+    requires = staticmethod(lambda o: [("nothing-loaded-yet", z3.And(z3.Not(o.self.g_index_loaded), z3.Not(o.self.g_assembly_loaded))),
+                                       ("three-files", z3.And(o.self.fasta_file.z != o.self.fai_file.z, o.self.fasta_file.z != o.self.agp_file.z, o.self.fai_file.z != o.self.agp_file.z))])
+    raises = {e: (lambda o: True) for e in ("ValueError", "FileNotFoundError", "OSError", "IndexError", "KeyError", "AttributeError", "TypeError")}
+    modifies = staticmethod(lambda o: [("field", "FastaIndex", f, o.self) for f in _LOADED + ["index"]] + [
+        ("field", "Path", "g_exists", o.self.fai_file), ("field", "Path", "g_mtime", o.self.fai_file),
+        ("field", "Path", "g_exists", o.self.agp_file), ("field", "Path", "g_mtime", o.self.agp_file),
+        ("fresh-objs", "FastaInfo", ["length", "file_offset", "residues_per_line", "max_line_length"]), ("dict-maps", STR, TRef("FastaInfo")), ("alloc",), ("ralloc",)])
+    ensures = staticmethod(lambda o, n, res: [("index-and-assembly-both-filled", z3.And(n.self.g_index_loaded, n.self.g_assembly_loaded))])
